@@ -114,7 +114,7 @@ fn join(dir: &str, rel: &str) -> String {
 fn gen_cfg(rng: &mut Rng, explicit_prefix: Option<&str>) -> Value {
     let verbosity = *rng.pick(&["OFF", "INFORMATION", "DEBUG", "MANDATORY", "debug"]);
     let mut cfg = exec::tracer_like_cfg(explicit_prefix, rng.chance(1, 2), rng.chance(1, 2), verbosity, rng.chance(2, 3));
-    match rng.below(8) {
+    match *rng.pick(&[0usize, 1, 2, 2, 3, 4, 4, 5, 6, 7]) {
         0 => {
             // only the + operator
             cfg["csiMethods"] = json!([{"src": "plusOperator", "operator": true}]);
@@ -145,6 +145,13 @@ fn gen_cfg(rng: &mut Rng, explicit_prefix: Option<&str>) -> Value {
                 ms.push(json!({"src": "concat", "dst": "stringConcatAgain"}));
                 ms.insert(1, json!({"src": "plusOperator", "operator": true}));
                 ms.push(json!({"src": "substring", "dst": "stringSubstring"}));
+                // ... and repeated in the middle of the list, with another destination (other methods follow)
+                if let Some(i) = ms.iter().position(|m| m["src"] == "trim") {
+                    ms.insert(i + 1, json!({"src": "trim", "dst": "trimOfAnotherProduct"}));
+                }
+                if let Some(i) = ms.iter().position(|m| m["src"] == "substring") {
+                    ms.insert(i + 1, json!({"src": "substring", "dst": "substringOfAnotherProduct"}));
+                }
             }
         }
         5 => {
@@ -198,8 +205,18 @@ fn plan16(seed: u64, run: u64, tier: Tier) -> Plan16 {
         o.crlf = rng.chance(1, 8);
         o.unicode = rng.chance(1, 4);
         // (a file with tens of thousands of literals is expensive: one run in eight may have one)
-        let kind = rng.weighted(&[8, 3, 2, 2, 3, 1, 1, 2, 1, 2, if run % 8 == 5 && si == 0 { 12 } else { 0 }]);
+        let kind = rng.weighted(&[8, 3, 2, 2, 3, 1, 1, 2, 1, 2, if run % 8 == 5 && si == 0 { 12 } else { 0 }, 1, 1]);
         let (kind_s, mut text) = match kind {
+            11 => (
+                // calls of GLOBAL functions named like configured methods (nothing declares them here)
+                "bare-calls",
+                "function usesGlobals(a, b) {\n  return fn0(a + b) + fn0(a) + trim(b) + a.trim().concat(b);\n}\nmodule.exports = { usesGlobals };\n".to_string(),
+            ),
+            12 => (
+                // a polyfill-like module: only declares functions named like configured methods (not modified)
+                "declares-only",
+                "function fn0(x) { return x; }\nfunction trim(x) { return x; }\nvar concat = function (x) { return x; };\nmodule.exports = { fn0, trim, concat };\n".to_string(),
+            ),
             10 => {
                 let n = rng.range(26_000, 34_000);
                 ("huge-literals", jsgen::gen_many_literals(&mut rng, n))
